@@ -23,7 +23,8 @@ KNOWN_PREDICATES = {}
 
 def harness_specs(tier):
     sp = [dict(name='h_c18', src='h_c18.cpp', flavour='fast'),
-          dict(name='h_c18_sandbg', src='h_c18.cpp', flavour='san-dbg')]
+          dict(name='h_c18_sandbg', src='h_c18.cpp', flavour='san-dbg'),
+          dict(name='h_c18a', src='h_c18a.cpp', flavour='fast'), dict(name='h_c18a_sandbg', src='h_c18a.cpp', flavour='san-dbg')]
     if tier == 'thorough':
         sp += [dict(name='h_c18_dbg', src='h_c18.cpp', flavour='dbg'), dict(name='h_c18_san', src='h_c18.cpp', flavour='san')]
     return sp
@@ -35,7 +36,7 @@ def tf(b):
 
 def gen(tier, rng):
     E = 3 if tier == 'quick' else 4
-    hs = [s['name'] for s in harness_specs(tier)]
+    hs = [s['name'] for s in harness_specs(tier) if s['src'] == 'h_c18.cpp']
     shp = list(shapes(3, E, min_rank=1))
     # ---- ndarray pairs
     for i, s1 in enumerate(shp):
@@ -88,6 +89,21 @@ def gen(tier, rng):
             exp = (abs(u - v) < 8) if max(u, v) < 9000 else False
             for hh in hs:
                 yield Case('isclose_num ad=%d bd=%d eps=8 w=%s' % (u, v, w), hh, oracle=tf(exp), model=False, tags=['isclose', 'num', 'non-finite' if max(u, v) >= 9000 else 'finite'])
+    # ---- apply_isequal / apply_isclose over sequences of arrays: every pairing of container kinds (list / fixed-length array /
+    # tuple) in BOTH operand orders, equal and different lengths, a perturbed entry at every position (seeded change C18-3:
+    # the list-vs-fixed branch looped over the wrong operand's static length and compared nothing)
+    for fn in ('isequal', 'isclose'):
+        for lk, rk in itertools.product(('vec', 'arr', 'tup'), repeat=2):
+            for n in (1, 2, 3):
+                for m in (1, 2, 3):
+                    if lk != 'vec' and rk != 'vec' and n != m:
+                        continue            # two fixed-length containers of different lengths do not instantiate
+                    for diff in [-1] + list(range(m)):
+                        for pos in ((0,) if diff < 0 else (0, 1)):
+                            exp = (n == m) and (diff < 0 or diff >= n)
+                            for hh in ('h_c18a', 'h_c18a_sandbg'):
+                                yield Case('apply_eq fn=%s lk=%s rk=%s n=%d m=%d diff=%d pos=%d' % (fn, lk, rk, n, m, diff, pos), hh, oracle=tf(exp), model=False,
+                                           nontrivial=True, tags=['apply_' + fn, 'kinds=%s/%s' % (lk, rk), 'equal' if exp else 'different'])
     # ---- wrappers on a sample of nd pairs
     small = [s for s in shp if prod(s) <= 6]
     for s1 in small:
